@@ -436,6 +436,23 @@ func genG07(repo string, w *Out) error {
 	}
 	w.DefBool("upstream_dialer_gets_tls_clone", cloned)
 
+	// mitm.go (forwarder): the CA the proxy generates for itself keeps certutil's own lifetime, it is not derived
+	// from the leaf validity
+	mg, err := Parse(repo, "mitm.go")
+	if err != nil {
+		return err
+	}
+	lca, err := mg.Func("MITMConfig.loadCACertificate")
+	if err != nil {
+		return err
+	}
+	lcasrc := mg.Src(lca.Body)
+	if !strings.Contains(lcasrc, "tmpl := certutil.ECDSASelfSignedCert()") || !strings.Contains(lcasrc, "return tmpl.Gen()") {
+		return fmt.Errorf("loadCACertificate: generated-CA branch is not a shape the model knows: %q", lcasrc)
+	}
+	w.DefBool("generated_ca_lifetime_not_from_validity",
+		!strings.Contains(lcasrc, "Validity") && !strings.Contains(lcasrc, "ValidFor") && !strings.Contains(lcasrc, "ValidFrom"))
+
 	// ---------------------------------------------------------------- http_transport.go, tls.go
 	tf, err := Parse(repo, "http_transport.go")
 	if err != nil {
